@@ -36,8 +36,11 @@ def run(tier):
         c = by[o["id"]]
         detail = {"builtin": c["b"], "position": c["pos"], "syntax": c["syn"], "observation": {k: o[k] for k in o if k != "profile"},
                   "profile": o.get("profile")}
-        if o.get("panic"):
+        if o.get("panic") and (c["expect"] == "accepted" or o["compileErr"]):
             raise vlib.Infra("harness panic on %s: %s" % (c, o["panic"]))
+        if o.get("panic"):
+            V.disagree("%s accepted and run (the engine panicked while executing it)" % c["b"], detail)
+            continue
         if c["expect"] == "accepted":
             # control: a harmless built-in in the same position/syntax must compile, otherwise the snippet is broken
             if o["compileErr"] or o["validateErr"]:
